@@ -727,8 +727,26 @@ _Recorder = _mk_recorder  # CallbackList only accepts CallbackBase instances
 
 
 # ---------------------------------------------------------------- canonicalisation of identities
+def by_key(entries):
+    """audit 3 (B9): the property fixes WHAT a checkpoint / a unitary dictionary holds, not the ORDER of its keys: entry lists
+    [[key, value], ...] are compared sorted by key (on both sides); anything else is returned unchanged"""
+    import json
+
+    def val(v):
+        if isinstance(v, dict) and isinstance(v.get("ud"), (list, tuple)):
+            return {**v, "ud": sorted((list(e) for e in v["ud"]), key=lambda e: json.dumps(e[0], sort_keys=True, default=str))}
+        return v
+
+    if isinstance(entries, dict):
+        return val(entries)
+    if isinstance(entries, (list, tuple)) and all(isinstance(e, (list, tuple)) and len(e) == 2 for e in entries):
+        return sorted(([e[0], val(e[1])] for e in entries), key=lambda e: json.dumps(e[0], sort_keys=True, default=str))
+    return entries
+
+
 def canon_world(w):
-    """replace network ids / tensor ids by first-occurrence class numbers (same traversal for both sides)"""
+    """replace network ids / tensor ids by first-occurrence class numbers (same traversal for both sides); key order of files and of
+    unitary dictionaries is normalised (by_key)"""
     nets, tens = {}, {}
 
     def cn(i):
@@ -743,11 +761,11 @@ def canon_world(w):
         return {"id": cn(n["id"]), "kind": n["kind"], "nv": n["nv"], "nh": n["nh"], "na": n["na"],
                 "params": [[p[0], ct(p[1]), list(p[2]), p[3]] for p in n["params"]]}
 
-    out = {"states": {}, "modules": {}, "metas": {}, "files": w["files"]}
+    out = {"states": {}, "modules": {}, "metas": {}, "files": {p: by_key(f) for p, f in w["files"].items()}}
     for s in sorted(w["states"]):
         st = w["states"][s]
         out["states"][s] = {"kind": st["kind"], "nv": st["nv"], "nh": st["nh"], "na": st["na"],
-                            "nets": [[n, net(x)] for n, x in st["nets"]], "ud": st["ud"]}
+                            "nets": [[n, net(x)] for n, x in st["nets"]], "ud": by_key(st["ud"]) if st["ud"] is not None else None}
     for s in sorted(w["modules"]):
         out["modules"][s] = net(w["modules"][s])
     for s in sorted(w["metas"]):
